@@ -22,6 +22,7 @@ class C03(Engine):
     prop = "C03"
     title = "every output format carries exactly the assembled memory image"
     quick_budget = 45
+    quick_runs = 5000
     thorough_budget = 900
     rule = ("run i = seeded byte map (1-5 segments; lengths biased to 1,15,16,17,255,256,257; gaps 0,1,15,16,65535,65536; bases at "
             "0, 0xfff0, 0x10000, 0xfffff0, 0x1000000, 0x7ffffff0, near 2^32; CPUs with 1/2/4/8 bytes per address, both byte orders, "
